@@ -2,27 +2,49 @@
 
 Real code: BKVectors.from_kpoints (-> find_bk_vectors, k_to_shells, is_parallel_shell, get_shell_weights,
 find_G_and_neighbours) of wannierberri/w90files/bkvectors.py, observed through the attributes
-wk, bk_cart, bk_grid, neighbours, G, kpt_grid of the returned object.
+wk, bk_cart, bk_grid, neighbours, G, kpt_grid of the returned object - and of the objects reached from it through
+the other public entry points of that file (to_npz/from_npz, from_nnkp of a file listing the same neighbours,
+reorder_mmn, the constructor) - see "Histories".
 
-Oracles (none of them uses the shell search or the weight solver of the library):
+Oracles (none of them uses the shell search or the weight solver of the library), all in `judge`:
   (B1)     sum_b w_b b_i b_j = delta_ij, with b recomputed by the harness from bk_grid and the mesh basis
            recip_lattice/mp_grid (and bk_cart == that product).  The library accepts a shell set when the Frobenius
-           residual is below its documented parameter bk_complete_tol (default 1e-5): 75 % of the cases pass
-           bk_complete_tol=1e-9 and require 1.1e-8 (rounding is ~1e-12), the others use the default and are judged at
-           1e-5 (how often the default lets a residual > 1e-8 through is only counted);
+           residual is below its documented parameter bk_complete_tol (default 1e-5): 55 % of the cases pass
+           bk_complete_tol=1e-9 and require 1.1e-8 (rounding is ~1e-12), 25 % use the default and are judged at
+           1e-5 (how often the default lets a residual > 1e-8 through is only counted), 20 % pass a random value
+           t in [1e-9, 1e-4] and are judged at t + 1e-9;
   (+-)     the set {(b, w)} is closed under b -> -b with equal weights, no repeated and no zero vector;
   (shells) brute force in the harness: every vector n.basis of the mesh lattice inside a box that provably
            contains the ball of radius max|b| is enumerated; every one whose length equals that of a selected
-           b must be selected too, with the same weight.  Tie guard: a mesh vector whose length differs from a
-           selected one by more than rounding (1e-9) but less than 1e-5 makes the case a skipped tie
-           (the library separates shells at kmesh_tol = 1e-7);
+           b must be selected too, with the same weight.  "Equal" follows the documented parameter kmesh_tol (shells
+           are separated where consecutive lengths differ by more than kmesh_tol, default 1e-7): lengths closer than
+           len_eq are one shell, a mesh vector whose length differs from a selected one by more than len_eq but less
+           than len_tie makes the case a skipped tie; (len_eq, len_tie) = (kmesh_tol/100, 100*kmesh_tol) = (1e-9, 1e-5)
+           for kmesh_tol <= 1e-7 and (kmesh_tol/10, 10*kmesh_tol) for larger values;
   (nb)     exact integer arithmetic: kint[k] + bk_grid[b] == kint[neighbours[k][b]] + G[k][b]*mp_grid for every
-           k of kptirr and every b, for shuffled k lists given as i/N floats (optionally 8-digit rounded).
-A RuntimeError("Could not find a complete set") on a lattice with cond <= 20 is a violation (witness = lattice
-and mesh); lattices with cond > 50 would be skipped (the generator never produces them).
+           k of kptirr and every b, for shuffled k lists given as i/N floats (optionally rounded to 8..12 digits).
+A RuntimeError("Could not find a complete set") on a lattice with cond <= 50 is a violation (witness = lattice
+and mesh) when the documented defaults of kmesh_tol (or a smaller value) and search_supercell (or a larger value)
+are used; with an enlarged kmesh_tol or search_supercell=1 it is counted and the case skipped (the property only
+speaks about returned sets); lattices with cond > 50 would be skipped (the generator never produces them).
+
+Input classes added by the widening review (each with a counter):
+  * documented parameters: kmesh_tol (1e-9 .. 1e-3, together with nearly symmetric cells whose shells split by less than
+    kmesh_tol - "merged" - or by more than the tie zone - "split"), search_supercell 1 / 3 (result = that of the default
+    as a set), random bk_complete_tol; argument forms (mp_grid tuple / list / int32, kptirr tuple / array / range,
+    Fortran-ordered and non-contiguous recip_lattice / kpoints_red, positional call); the inputs must come back unchanged;
+  * generator ranges: left-handed lattices, cells scaled by 0.25 .. 20, strongly sheared settings (cond <= 50),
+    nearly symmetric cells (distortion 1e-7 .. 3e-3), meshes with one direction 9 .. 120 (incl. 22, 23, 26, 49);
+  * direct call of the public classmethod find_bk_vectors (the returned triple against the object and bk_grid@basis);
+  * Histories: object -> to_npz -> from_npz (once or twice, `equals`), a .nnkp file written by the harness (neighbours
+    from exact integer arithmetic, b order permuted, lattice with 7 or 16 digits, real_lattice= / recip_lattice=
+    overrides) -> from_nnkp -> judged by the same four oracles + b order = file order; reorder_mmn of that object
+    onto the first one; -> npz; at the end the first object must be unchanged by all later calls.
 """
 import os
+import shutil
 import sys
+import tempfile
 
 sys.path.insert(0, os.path.dirname(os.path.dirname(os.path.abspath(__file__))))
 from vlib import env, harness, gen_systems  # noqa: E402
@@ -35,12 +57,23 @@ KINDS = ["cubic", "fcc", "bcc", "tetragonal", "bct", "orthorhombic", "ortho_fc",
 # axis ratios that create accidental coincidences of shell radii or hidden higher symmetry
 SPECIAL = [0.5, 2.0 / 3.0, 1.0 / np.sqrt(2.0), 1.5, 2.0, 3.0, np.sqrt(2.0), np.sqrt(3.0), np.sqrt(8.0 / 3.0), 1.0]
 RHOMBO_X = [0.1, 0.2, 0.25, -0.2, -0.1, 0.4, 0.05, 0.3]  # rows (1,x,x): .25 = fcc, -.2 = bcc, .1/.2 = finding F12
-LEN_EQ = 1e-9    # two lengths closer than this are "equal" (rounding noise is 1e-15)
+LEN_EQ = 1e-9    # two lengths closer than this are "equal" (rounding noise is 1e-15)           [kmesh_tol = 1e-7]
 LEN_TIE = 1e-5   # closer than this but not equal: tie zone of the library's kmesh_tol=1e-7 -> skipped
 B1_TOL = 1e-8
 BK_TOL_TIGHT = 1e-9     # bk_complete_tol passed explicitly in most cases; B1 is then required to 10*tol + 1e-9
 BK_COMPLETE_TOL = 1e-5  # documented default of from_kpoints: Frobenius residual below which a shell set is accepted
 SEARCH_SUPERCELL = 2  # documented default of from_kpoints / find_bk_vectors (index box +-2*mp_grid)
+KMESH_TOL = 1e-7      # documented default of from_kpoints / find_bk_vectors
+KMESH_TOL_NNKP = 1e-5  # documented default of from_nnkp
+BIG_SIZES = [22, 23, 26, 49, 64, 81, 100, 120]
+LIB_BOX_MAX = 1.5e5   # cost guard for the new classes: number of index triples the library enumerates (~5 us each)
+
+
+def len_zone(kmesh_tol):
+    """(len_eq, len_tie) of the whole-shell oracle for a given kmesh_tol; (1e-9, 1e-5) at the default"""
+    if kmesh_tol <= KMESH_TOL * (1 + 1e-12):
+        return kmesh_tol / 100.0, kmesh_tol * 100.0
+    return kmesh_tol / 10.0, kmesh_tol * 10.0
 
 
 def make_lattice(rng, kind, mp, mode):
@@ -83,6 +116,17 @@ def random_unimodular(rng):
     return U
 
 
+def random_shear(rng):
+    """a strongly non-reduced setting: 1-3 elementary shears a_i -> a_i + n a_j with |n| = 2..4"""
+    U = np.eye(3, dtype=int)
+    for _ in range(int(rng.integers(1, 4))):
+        i, j = rng.choice(3, 2, replace=False)
+        E = np.eye(3, dtype=int)
+        E[i, j] = int(rng.choice([-4, -3, -2, 2, 3, 4]))
+        U = E @ U
+    return U
+
+
 def make_mesh(rng, thorough):
     m = int(rng.integers(6))
     hi = 9
@@ -102,12 +146,20 @@ def make_mesh(rng, thorough):
     return mp
 
 
+def make_big_mesh(rng):
+    """one direction 9..120 (with the sizes for which fl(j/N)*N falls below j), at most 1000 k-points"""
+    nb = int(BIG_SIZES[int(rng.integers(len(BIG_SIZES)))]) if rng.random() < 0.5 else int(rng.integers(9, 101))
+    n2 = int(rng.integers(1, max(1, min(8, 1000 // nb)) + 1))
+    n3 = int(rng.integers(1, max(1, min(8, 1000 // (nb * n2))) + 1))
+    return tuple(int(x) for x in rng.permutation([nb, n2, n3]))
+
+
 def mesh_vectors_in_ball(basis, radius, maxbox=4_000_000):
     """all integer n with |n.basis| <= radius, by brute force over a box that contains the ball:
     n = v.inv(basis)  =>  |n_i| <= |v| * |column i of inv(basis)|"""
     inv = np.linalg.inv(basis)
     bound = np.floor(radius * np.linalg.norm(inv, axis=0) * (1 + 1e-9) + 1e-9).astype(int) + 1
-    if np.prod(2 * bound + 1) > maxbox:
+    if np.prod(2.0 * bound + 1) > maxbox:
         raise harness.Skip("brute-force box too large")
     ax = [np.arange(-b, b + 1) for b in bound]
     n = np.stack(np.meshgrid(*ax, indexing="ij"), axis=-1).reshape(-1, 3)
@@ -116,35 +168,342 @@ def mesh_vectors_in_ball(basis, radius, maxbox=4_000_000):
     return n[sel], length[sel], bound
 
 
+def library_box(recip, mpa, ssc):
+    """number of index triples find_bk_vectors enumerates (cost estimate only, never used by an oracle)"""
+    basis = recip / mpa[:, None]
+    rad = ssc * np.linalg.norm(recip, axis=1).max()
+    lim = np.ceil(rad * np.linalg.norm(np.linalg.inv(basis), axis=0))
+    return float(np.prod(2.0 * lim + 1))
+
+
+def shrink_mesh(mp, recip, ssc, keep=None):
+    """halve the largest mesh sizes (not the one at index `keep`) until the library's index box is affordable"""
+    mp = list(mp)
+    while library_box(recip, np.array(mp), ssc) > LIB_BOX_MAX:
+        cand = [i for i in range(3) if i != keep and mp[i] > 1]
+        if not cand:
+            return None
+        i = max(cand, key=lambda j: mp[j])
+        mp[i] = max(1, mp[i] // 2)
+    return tuple(mp)
+
+
 def setup(ctx):
     env.import_wb()
     return {}
+
+
+# ---------------------------------------------------------------------------------------------------------------
+#  the four oracles, applied to any BKVectors object that claims to describe mesh S
+# ---------------------------------------------------------------------------------------------------------------
+def judge(ctx, bk, S, pre=""):
+    """S: basis, mpa, mp, kint, kred, NK, kirr, b1_atol, bk_tol_label, len_eq, len_tie, ssc, wit.
+    Returns None after a structural violation, else a dict (bad, NNB, nshell, nG, index, nlen, blen, wscale)."""
+    basis, mpa, mp, kint, kred, NK = S["basis"], S["mpa"], S["mp"], S["kint"], S["kred"], S["NK"]
+    len_eq, len_tie, ssc, wit = S["len_eq"], S["len_tie"], S["ssc"], S["wit"]
+    b1_atol, bk_lab = S["b1_atol"], S["bk_tol_label"]
+    wk = np.array(bk.wk, dtype=float)
+    bg = np.array(bk.bk_grid)
+    bc = np.array(bk.bk_cart, dtype=float)
+    NNB = len(wk)
+    if not (bg.shape == (NNB, 3) and bc.shape == (NNB, 3) and NNB > 0 and np.issubdtype(bg.dtype, np.integer)):
+        ctx.ev()
+        ctx.violation(pre + "from_kpoints:malformed_output", f"shapes wk={wk.shape} bk_grid={bg.shape} {bg.dtype} "
+                                                            f"bk_cart={bc.shape}", wit)
+        return None
+    bscale = float(np.abs(basis).max())
+    b_h = bg @ basis                       # harness-side cartesian b vectors
+    blen = np.linalg.norm(b_h, axis=1)
+    wscale = 1.0 / float(np.min(np.linalg.norm(basis, axis=1))) ** 2
+    wit2 = dict(wit, bk_grid=bg, wk=wk)
+
+    # ---- bk_cart consistent with bk_grid
+    ctx.close(pre + "bk_cart!=bk_grid@(recip/mp_grid)", bc, b_h, rtol=1e-12, scale=bscale * max(1, np.abs(bg).max()),
+              what="bk_cart", witness=wit2)
+    # ---- (B1)
+    B = np.einsum("b,bi,bj->ij", wk, b_h, b_h)
+    res_max = float(np.abs(B - np.eye(3)).max())
+    if S["bk_tol"] is None and res_max > B1_TOL:
+        ctx.count("default_bk_complete_tol_accepted_residual_gt_1e-8")   # informational: by design of the parameter
+    bad_b1 = not ctx.close(pre + "B1:sum_w_b_b!=identity", B, np.eye(3), rtol=0.0, atol=b1_atol,
+                           what=f"completeness relation (bk_complete_tol={bk_lab})", witness=wit2)
+    B2 = np.einsum("b,bi,bj->ij", wk, bc, bc)
+    ctx.close(pre + "B1:sum_w_b_b!=identity", B2, np.eye(3), rtol=0.0, atol=b1_atol,
+              what=f"completeness relation (bk_cart, bk_complete_tol={bk_lab})", witness=wit2)
+
+    # ---- (+-) closure, no repeated / zero vectors
+    index = {}
+    bad = bad_b1
+    for ib, b in enumerate(bg.tolist()):
+        t = tuple(b)
+        if t in index or t == (0, 0, 0):
+            ctx.violation(pre + "bk_grid:repeated_or_zero_vector", f"vector {t} repeated or zero", wit2)
+            bad = True
+        index[t] = ib
+    ctx.ev()
+    for t, ib in index.items():
+        ctx.ev()
+        jb = index.get(tuple(-x for x in t))
+        if jb is None:
+            ctx.violation(pre + "pm_closure:-b_missing", f"b={t} selected but -b is not", wit2)
+            bad = True
+            break
+        if abs(wk[ib] - wk[jb]) > 1e-9 * wscale:
+            ctx.violation(pre + "pm_closure:weights_differ", f"w(b)={wk[ib]} w(-b)={wk[jb]} for b={t}", wit2)
+            bad = True
+            break
+        ctx.dev(pre + "pm_closure:weights_differ", abs(wk[ib] - wk[jb]) / (1e-9 * wscale))
+
+    # ---- whole shells (brute force over the mesh lattice)
+    rmax = float(blen.max())
+    nvec, nlen, bound = mesh_vectors_in_ball(basis, rmax + 2 * len_tie)
+    keep = np.any(nvec != 0, axis=1)
+    nvec, nlen = nvec[keep], nlen[keep]
+    d = np.abs(nlen[:, None] - blen[None, :])          # (mesh vectors, selected b)
+    if np.any((d > len_eq) & (d < len_tie)):
+        raise harness.Skip(f"tie: mesh vector within {len_tie:g} of a selected shell radius")
+    # distinct radii of the selection
+    order = np.argsort(blen)
+    radii = []
+    for ib in order:
+        if not radii or blen[ib] - radii[-1][0] > len_eq:
+            radii.append([blen[ib], [ib]])
+        else:
+            radii[-1][1].append(ib)
+    nshell = len(radii)
+    for r, members in radii:
+        ctx.ev()
+        ctx.count("shells_checked")
+        same = np.where(np.abs(nlen - r) <= len_eq)[0]
+        w0 = wk[members[0]]
+        missing = [tuple(nvec[i].tolist()) for i in same if tuple(nvec[i].tolist()) not in index]
+        if missing:
+            # separate the truncation of a shell by the library's finite search box (index box
+            # +-search_supercell*mp_grid, default 2) from every other way of losing a vector
+            outside = all(bool(np.any(np.abs(np.array(m)) > ssc * mpa)) for m in missing)
+            mech = ("shell_incomplete:missing_vector_outside_search_supercell_box" if outside else
+                    "shell_incomplete:missing_vector_inside_search_box")
+            ctx.violation(pre + mech,
+                          f"shell |b|={r:.9f}: {len(members)} selected, {len(same)} mesh vectors of that length; "
+                          f"missing {missing[:6]} (library search box +-{(ssc * mpa).tolist()})",
+                          dict(wit2, brute_force_box=bound))
+            bad = True
+            break
+        wsh = np.array([wk[index[tuple(nvec[i].tolist())]] for i in same])
+        dw = float(np.max(np.abs(wsh - w0))) if len(wsh) else 0.0
+        ctx.dev(pre + "shell_weights_differ", dw / (1e-9 * wscale))
+        if dw > 1e-9 * wscale:
+            ctx.violation(pre + "shell_weights_differ", f"shell |b|={r:.9f} has weights {sorted(set(wsh.tolist()))}",
+                          wit2)
+            bad = True
+            break
+        if len(same) != len(members):
+            # a selected vector that the brute force did not find at that radius: harness inconsistency
+            raise RuntimeError(f"harness: brute force found {len(same)} vectors, selection has {len(members)}")
+        if len(same) and float(np.ptp(nlen[same])) > LEN_EQ:
+            # members of one shell whose lengths differ by more than rounding: decided by the kmesh_tol passed
+            ctx.count("kmesh_tol_merged_shells_decided")
+    if nshell >= 2:
+        ctx.count("multi_shell_sets")
+    if np.any(np.abs(bg).max(axis=0) >= SEARCH_SUPERCELL * mpa):
+        ctx.count("b_beyond_2mp_index_box")
+
+    # ---- neighbours: k + b = k_nb + G, exact integers
+    kirr = S["kirr"]
+    G, nb = bk.G, bk.neighbours
+    if set(G.keys()) != set(kirr) or set(nb.keys()) != set(kirr):
+        ctx.ev()
+        ctx.violation(pre + "neighbours:keys!=kptirr", f"keys {sorted(G.keys())[:10]} vs kptirr {sorted(kirr)[:10]}",
+                      wit)
+        return None
+    ctx.close(pre + "kpt_grid!=round(k*mp_grid)", np.array(bk.kpt_grid), kint, rtol=0, atol=0, what="kpt_grid",
+              witness=wit)
+    nG = 0
+    for ik in kirr:
+        g = np.array(G[ik])
+        n = np.array(nb[ik])
+        ctx.ev()
+        ctx.count("neighbour_relations_checked", NNB)
+        if g.shape != (NNB, 3) or n.shape != (NNB,) or n.min() < 0 or n.max() >= NK or \
+                not (np.issubdtype(g.dtype, np.integer) and np.issubdtype(n.dtype, np.integer)):
+            ctx.violation(pre + "neighbours:malformed", f"ik={ik} G{g.shape}{g.dtype} nb{n.shape}{n.dtype} {n}", wit2)
+            bad = True
+            break
+        lhs = kint[ik][None, :] + bg
+        rhs = kint[n] + g * mpa[None, :]
+        if not np.array_equal(lhs, rhs):
+            ib = int(np.where(np.any(lhs != rhs, axis=1))[0][0])
+            ctx.violation(pre + "neighbours:k+b!=k_nb+G",
+                          f"ik={ik} k={kint[ik].tolist()}/{mp} b={bg[ib].tolist()} neighbour={int(n[ib])} "
+                          f"k_nb={kint[n[ib]].tolist()} G={g[ib].tolist()}", wit2)
+            bad = True
+            break
+        # the same relation in reduced float coordinates, as stated in the property
+        kr = kred[ik][None, :] + bg / mpa[None, :] - kred[n] - g
+        if np.abs(kr).max() > 1e-7:
+            ctx.violation(pre + "neighbours:k+b!=k_nb+G", f"ik={ik}: reduced coordinates differ by {np.abs(kr).max()}",
+                          wit2)
+            bad = True
+            break
+        nG += int(np.count_nonzero(np.any(g != 0, axis=1)))
+    if nG:
+        ctx.count("G_nonzero", nG)
+    return dict(bad=bad, NNB=NNB, nshell=nshell, nG=nG, index=index, nlen=nlen, blen=blen, wscale=wscale,
+                wk=wk, bg=bg)
+
+
+# ---------------------------------------------------------------------------------------------------------------
+#  helpers of the histories
+# ---------------------------------------------------------------------------------------------------------------
+def snapshot(bk):
+    return dict(wk=np.array(bk.wk, dtype=float).copy(), bk_grid=np.array(bk.bk_grid).copy(),
+                bk_cart=np.array(bk.bk_cart, dtype=float).copy(), kpt_grid=np.array(bk.kpt_grid).copy(),
+                mp_grid=np.array(bk.mp_grid).copy(), recip_lattice=np.array(bk.recip_lattice, dtype=float).copy(),
+                neighbours={int(k): np.array(v).copy() for k, v in bk.neighbours.items()},
+                G={int(k): np.array(v).copy() for k, v in bk.G.items()})
+
+
+def same_as_snapshot(bk, snap, float_atol=None):
+    """comparison of the attributes of bk with a snapshot (exact; the float attributes wk, bk_cart, recip_lattice within
+    float_atol[key] when given); returns the name of the first differing one"""
+    for key in ("wk", "bk_grid", "bk_cart", "kpt_grid", "mp_grid", "recip_lattice"):
+        a = np.asarray(getattr(bk, key))
+        if a.shape != snap[key].shape:
+            return key
+        if float_atol is not None and key in float_atol:
+            if not np.all(np.abs(a - snap[key]) <= float_atol[key]):
+                return key
+        elif not np.array_equal(a, snap[key]):
+            return key
+    for key in ("neighbours", "G"):
+        dic = getattr(bk, key)
+        if set(int(k) for k in dic.keys()) != set(snap[key].keys()):
+            return key + ".keys"
+        for k, v in dic.items():
+            v = np.asarray(v)
+            if v.shape != snap[key][int(k)].shape or not np.array_equal(v, snap[key][int(k)]):
+                return f"{key}[{int(k)}]"
+    return None
+
+
+def fmt_rows(a, fmt):
+    return "\n".join(" ".join(fmt % x for x in row) for row in a)
+
+
+def write_nnkp(path, L, recip, kred, kint, mpa, bg_file, lat_digits, k_digits):
+    """a Wannier90 .nnkp file for the b vectors bg_file (in that order for every k-point); the neighbour of every
+    k-point and its G come from exact integer arithmetic in the harness (not from the library)"""
+    NK = len(kint)
+    where = {tuple(k): i for i, k in enumerate((kint % mpa[None, :]).tolist())}
+    rows = []
+    for ik in range(NK):
+        kb = kint[ik][None, :] + bg_file                       # (NNB, 3)
+        inb = np.array([where[tuple(x)] for x in (kb % mpa[None, :]).tolist()], dtype=int)
+        Gk = (kb - kint[inb]) // mpa[None, :]
+        for j in range(len(bg_file)):
+            rows.append((ik + 1, int(inb[j]) + 1, int(Gk[j, 0]), int(Gk[j, 1]), int(Gk[j, 2])))
+    lat_fmt = f"%{lat_digits + 6}.{lat_digits}f"
+    k_fmt = f"%{k_digits + 6}.{k_digits}f"
+    txt = ["File written on 22Sep2026 at 00:00:00 ", "", "calc_only_A  :  F", "",
+           "begin real_lattice", fmt_rows(L, lat_fmt), "end real_lattice", "",
+           "begin recip_lattice", fmt_rows(recip, lat_fmt), "end recip_lattice", "",
+           "begin kpoints", f"{NK:6d}", fmt_rows(kred, k_fmt), "end kpoints", "",
+           "begin projections", "     0", "end projections", "",
+           "begin nnkpts", f"{len(bg_file):4d}",
+           "\n".join("%6d%6d   %4d%4d%4d" % r for r in rows), "end nnkpts", "",
+           "begin exclude_bands", "   0", "end exclude_bands", ""]
+    with open(path, "w") as f:
+        f.write("\n".join(txt))
+
+
+class FakeMMN:
+    """the only thing reorder_mmn reads from an MMN object: .data[ik] with the b index on the first axis"""
+
+    def __init__(self, data):
+        self.data = data
+
+
+def as_form(rng, a, forms):
+    return forms[int(rng.integers(len(forms)))](a)
+
+
+def non_contiguous(a):
+    big = np.zeros((a.shape[0], 2 * a.shape[1]), dtype=a.dtype)
+    big[:, ::2] = a
+    return big[:, ::2]
 
 
 def case(ctx, rng, idx, state):
     from wannierberri.w90files.bkvectors import BKVectors
 
     kind = KINDS[idx % len(KINDS)] if rng.random() < 0.7 else KINDS[int(rng.integers(len(KINDS)))]
-    mp = make_mesh(rng, ctx.thorough)
+    big = bool(rng.random() < 0.06)
+    mp = make_big_mesh(rng) if big else make_mesh(rng, ctx.thorough)
     mode = ["random", "special", "meshcomp"][int(rng.choice(3, p=[0.45, 0.4, 0.15]))]
     if kind == "triclinic":
         mode = "random"
     if mode == "meshcomp" and kind in ("cubic", "fcc", "bcc"):
         mode = "random"
     L = make_lattice(rng, kind, mp, mode)
+
+    # ---- documented parameter kmesh_tol, and nearly symmetric cells that make it matter
+    r = rng.random()
+    near, eps, kt = "exact", 0.0, None
+    if r < 0.10:       # shells of the symmetric cell split by more than the tie zone of the default kmesh_tol
+        near, eps = "split", 10 ** rng.uniform(-4.0, -2.5)
+    elif r < 0.20:     # split by less than kmesh_tol/10 of an enlarged kmesh_tol: still one shell
+        near, kt = "merged", float(rng.choice([1e-4, 1e-4, 1e-3]))
+    elif r < 0.26:     # split, with bk_complete_tol deciding how many shells are needed (distortion 1e-7..1e-4)
+        near, eps = "tiny", 10 ** rng.uniform(-7.0, -4.0)
+    elif r < 0.40:     # other values of kmesh_tol on ordinary cells (incl. the default written out)
+        kt = float(rng.choice([1e-9, 1e-8, 1e-7, 1e-6, 1e-5]))
+
     setting = "catalogue"
-    if rng.random() < 0.3:
+    r = rng.random()
+    if r < 0.3:
         U = random_unimodular(rng)
         L2 = U @ L
         if np.linalg.cond(L2) <= 20.0:
             L, setting = L2, "resetting"
+    elif r < 0.42:
+        for _ in range(6):
+            L2 = random_shear(rng) @ L
+            if np.linalg.cond(L2) <= 50.0:
+                L, setting = L2, "sheared"
+                break
     rotated = bool(rng.random() < 0.8)
     if rotated:
         L = L @ gen_systems.random_rotation(rng).T
+    lefthanded = bool(rng.random() < 0.15)
+    if lefthanded:
+        if rng.random() < 0.5:
+            L = L.copy()
+            L[int(rng.integers(3))] *= -1
+        else:
+            L = L @ np.diag([1.0, 1.0, -1.0])
+    cellscale = 1.0
+    if rng.random() < 0.2:
+        cellscale = float(10 ** rng.uniform(-0.6, 1.3))
+        L = L * cellscale
+    if near == "merged":
+        # lengths of the mesh vectors up to ~3 basis lengths then differ by at most kmesh_tol/10
+        bs = float(np.abs(2 * np.pi * np.linalg.inv(L).T / np.array(mp)[:, None]).max())
+        eps = 10 ** rng.uniform(-2.0, -1.0) * kt / max(bs, 1e-3) / 10.0
+    if eps:
+        L = L @ (np.eye(3) + eps * rng.uniform(-1, 1, (3, 3)))
     cond = float(np.linalg.cond(L))
     if cond > 50:
         raise harness.Skip("ill-conditioned lattice (cond>50)")
     recip = 2 * np.pi * np.linalg.inv(L).T      # rows = reciprocal lattice vectors
+    # ---- documented parameter search_supercell
+    ssc = SEARCH_SUPERCELL
+    if rng.random() < 0.08 and not big:
+        ssc = int(rng.choice([1, 3]))
+    if big or setting == "sheared" or ssc != SEARCH_SUPERCELL:
+        # cost guard of the added classes: the library enumerates an index box in pure Python
+        mp = shrink_mesh(mp, recip, ssc, keep=int(np.argmax(mp)) if big else None)
+        if mp is None:
+            raise harness.Skip("library search box too large (cost guard of the added classes)")
     mpa = np.array(mp, dtype=int)
     basis = recip / mpa[:, None]
 
@@ -154,207 +513,337 @@ def case(ctx, rng, idx, state):
     NK = len(kint)
     kred = kint / mpa[None, :]
     rounded = bool(rng.random() < 0.3)
+    digits = None
     if rounded:
-        kred = np.round(kred, 8)
+        digits = int(rng.choice([8, 8, 9, 10, 12]))
+        kred = np.round(kred, digits)
     if NK > 125 or rng.random() < 0.2:
-        nirr = int(min(NK, rng.integers(1, 17)))
+        nirr = int(min(NK, rng.integers(1, 17 if NK <= 400 else 7)))
         kptirr = [int(x) for x in rng.choice(NK, nirr, replace=False)]
         ctx.count("kptirr_subset")
     else:
         kptirr = None
+
     wit = dict(kind=kind, mode=mode, setting=setting, rotated=rotated, real_lattice=L, mp_grid=mp, cond=cond,
-               NK=NK, kptirr=kptirr, rounded=rounded)
+               NK=NK, kptirr=kptirr, rounded=digits, near_symmetric=near, distortion=eps, kmesh_tol=kt,
+               search_supercell=ssc, lefthanded=lefthanded, cellscale=cellscale)
 
     # completeness tolerance: the documented parameter bk_complete_tol (Frobenius residual below which a shell set is
     # accepted).  Mostly passed tight, so that B1 is decided at ~1e-8; the default (1e-5) is judged at 1e-5.
-    if rng.random() < 0.75:
-        bk_tol, kw = BK_TOL_TIGHT, dict(bk_complete_tol=BK_TOL_TIGHT)
+    kw = {}
+    r = rng.random()
+    if r < 0.55:
+        bk_tol = BK_TOL_TIGHT
+        kw["bk_complete_tol"] = bk_tol
         b1_atol = 10 * BK_TOL_TIGHT + 1e-9
         ctx.count("tight_bk_complete_tol_calls")
-    else:
-        bk_tol, kw = None, {}
+    elif r < 0.80:
+        bk_tol = None
         b1_atol = BK_COMPLETE_TOL * (1 + 1e-6)
         ctx.count("default_bk_complete_tol_calls")
+    else:
+        bk_tol = float(10 ** rng.uniform(-9, -4))
+        kw["bk_complete_tol"] = bk_tol
+        b1_atol = bk_tol + 1e-9
+        ctx.count("random_bk_complete_tol_calls")
     wit["bk_complete_tol"] = bk_tol
+    if kt is not None:
+        kw["kmesh_tol"] = kt
+        ctx.count("kmesh_tol_explicit_calls")
+    if ssc != SEARCH_SUPERCELL:
+        kw["search_supercell"] = ssc
+        ctx.count("search_supercell_nondefault_calls")
+    kt_eff = KMESH_TOL if kt is None else kt
+    len_eq, len_tie = len_zone(kt_eff)
+
+    # ---- argument forms
+    forms = "array"
+    recip_in, mp_in, kred_in, kptirr_in = recip.copy(), mpa.copy(), kred.copy(), kptirr
+    if rng.random() < 0.3:
+        forms = "varied"
+        mp_in = as_form(rng, mp, [tuple, list, lambda a: np.array(a, dtype=np.int32), lambda a: np.array(a, dtype=int)])
+        recip_in = as_form(rng, recip, [np.asfortranarray, non_contiguous, np.array])
+        kred_in = as_form(rng, kred, [np.asfortranarray, non_contiguous, np.array])
+        if kptirr is not None:
+            kptirr_in = as_form(rng, kptirr, [tuple, np.array, list, lambda a: np.array(a, dtype=np.int32)])
+        elif rng.random() < 0.3 and NK <= 125:
+            kptirr_in = range(NK)          # the documented meaning of None, written out
+        if not isinstance(mp_in, np.ndarray):
+            ctx.count("argform_mp_grid_not_array")
+        ctx.count("argform_varied_calls")
+    keep_in = (np.array(recip_in, copy=True), np.array(mp_in, copy=True), np.array(kred_in, copy=True),
+               None if kptirr_in is None else np.array(list(kptirr_in), copy=True))
+    positional = bool(rng.random() < 0.3)
     ctx.count("from_kpoints_calls")
     try:
-        bk = BKVectors.from_kpoints(recip_lattice=recip.copy(), mp_grid=mpa.copy(), kpoints_red=kred.copy(),
-                                    kptirr=kptirr, **kw)
+        if positional:
+            bk = BKVectors.from_kpoints(recip_in, mp_in, kred_in, kptirr=kptirr_in, **kw)
+        else:
+            bk = BKVectors.from_kpoints(recip_lattice=recip_in, mp_grid=mp_in, kpoints_red=kred_in,
+                                        kptirr=kptirr_in, **kw)
     except RuntimeError as e:
         if "Could not find a complete set" in str(e):
+            if kt_eff > KMESH_TOL * (1 + 1e-12):
+                ctx.count("no_complete_set_with_enlarged_kmesh_tol")
+                raise harness.Skip("no complete set with enlarged kmesh_tol (not judged)")
+            if ssc < SEARCH_SUPERCELL:
+                ctx.count("no_complete_set_with_search_supercell_1")
+                raise harness.Skip("no complete set with search_supercell=1 (not judged)")
             ctx.ev()
             ctx.violation("find_bk_vectors:no_complete_set_on_well_conditioned_lattice",
                           f"{kind} lattice (cond={cond:.2f}) mesh {mp}: {e}", wit)
             return
         raise
 
-    wk = np.array(bk.wk, dtype=float)
-    bg = np.array(bk.bk_grid)
-    bc = np.array(bk.bk_cart, dtype=float)
-    NNB = len(wk)
-    if not (bg.shape == (NNB, 3) and bc.shape == (NNB, 3) and NNB > 0 and np.issubdtype(bg.dtype, np.integer)):
-        ctx.ev()
-        ctx.violation("from_kpoints:malformed_output", f"shapes wk={wk.shape} bk_grid={bg.shape} {bg.dtype} "
-                                                      f"bk_cart={bc.shape}", wit)
-        return
-    bscale = float(np.abs(basis).max())
-    b_h = bg @ basis                       # harness-side cartesian b vectors
-    blen = np.linalg.norm(b_h, axis=1)
-    wscale = 1.0 / float(np.min(np.linalg.norm(basis, axis=1))) ** 2
-    wit2 = dict(wit, bk_grid=bg, wk=wk)
-
-    # ---- bk_cart consistent with bk_grid
-    ctx.close("bk_cart!=bk_grid@(recip/mp_grid)", bc, b_h, rtol=1e-12, scale=bscale * max(1, np.abs(bg).max()),
-              what="bk_cart", witness=wit2)
-    # ---- (B1)
-    B = np.einsum("b,bi,bj->ij", wk, b_h, b_h)
-    res_max = float(np.abs(B - np.eye(3)).max())
-    if bk_tol is None and res_max > B1_TOL:
-        ctx.count("default_bk_complete_tol_accepted_residual_gt_1e-8")   # informational: by design of the parameter
-    bad_b1 = not ctx.close("B1:sum_w_b_b!=identity", B, np.eye(3), rtol=0.0, atol=b1_atol,
-                           what=f"completeness relation (bk_complete_tol={bk_tol or 'default 1e-5'})", witness=wit2)
-    B2 = np.einsum("b,bi,bj->ij", wk, bc, bc)
-    ctx.close("B1:sum_w_b_b!=identity", B2, np.eye(3), rtol=0.0, atol=b1_atol,
-              what=f"completeness relation (bk_cart, bk_complete_tol={bk_tol or 'default 1e-5'})", witness=wit2)
-
-    # ---- (+-) closure, no repeated / zero vectors
-    index = {}
-    bad = bad_b1
-    for ib, b in enumerate(bg.tolist()):
-        t = tuple(b)
-        if t in index or t == (0, 0, 0):
-            ctx.violation("bk_grid:repeated_or_zero_vector", f"vector {t} repeated or zero", wit2)
-            bad = True
-        index[t] = ib
+    # ---- the call must not modify what it was given
     ctx.ev()
-    for t, ib in index.items():
-        ctx.ev()
-        jb = index.get(tuple(-x for x in t))
-        if jb is None:
-            ctx.violation("pm_closure:-b_missing", f"b={t} selected but -b is not", wit2)
-            bad = True
-            break
-        if abs(wk[ib] - wk[jb]) > 1e-9 * wscale:
-            ctx.violation("pm_closure:weights_differ", f"w(b)={wk[ib]} w(-b)={wk[jb]} for b={t}", wit2)
-            bad = True
-            break
-        ctx.dev("pm_closure:weights_differ", abs(wk[ib] - wk[jb]) / (1e-9 * wscale))
+    ctx.count("inputs_unchanged_checked")
+    now_in = (np.array(recip_in), np.array(mp_in), np.array(kred_in),
+              None if kptirr_in is None else np.array(list(kptirr_in)))
+    for name, a, b in zip(("recip_lattice", "mp_grid", "kpoints_red", "kptirr"), keep_in, now_in):
+        if (a is None) != (b is None) or (a is not None and not np.array_equal(a, b)):
+            ctx.violation("from_kpoints:input_modified", f"argument {name} was changed by the call", wit)
+            return
+    if not np.array_equal(keep_in[0], recip) or not np.array_equal(keep_in[2], kred):
+        raise RuntimeError("harness: argument forms changed the values")
 
-    # ---- whole shells (brute force over the mesh lattice)
-    rmax = float(blen.max())
-    nvec, nlen, bound = mesh_vectors_in_ball(basis, rmax + 2 * LEN_TIE)
-    keep = np.any(nvec != 0, axis=1)
-    nvec, nlen = nvec[keep], nlen[keep]
-    d = np.abs(nlen[:, None] - blen[None, :])          # (mesh vectors, selected b)
-    if np.any((d > LEN_EQ) & (d < LEN_TIE)):
-        raise harness.Skip("tie: mesh vector within 1e-5 of a selected shell radius")
-    # distinct radii of the selection
-    order = np.argsort(blen)
-    radii = []
-    for ib in order:
-        if not radii or blen[ib] - radii[-1][0] > LEN_EQ:
-            radii.append([blen[ib], [ib]])
-        else:
-            radii[-1][1].append(ib)
-    nshell = len(radii)
-    for r, members in radii:
-        ctx.ev()
-        ctx.count("shells_checked")
-        same = np.where(np.abs(nlen - r) <= LEN_EQ)[0]
-        w0 = wk[members[0]]
-        missing = [tuple(nvec[i].tolist()) for i in same if tuple(nvec[i].tolist()) not in index]
-        if missing:
-            # separate the truncation of a shell by the library's finite search box (index box
-            # +-search_supercell*mp_grid, default 2) from every other way of losing a vector
-            outside = all(bool(np.any(np.abs(np.array(m)) > SEARCH_SUPERCELL * mpa)) for m in missing)
-            mech = ("shell_incomplete:missing_vector_outside_search_supercell_box" if outside else
-                    "shell_incomplete:missing_vector_inside_search_box")
-            ctx.violation(mech,
-                          f"shell |b|={r:.9f}: {len(members)} selected, {len(same)} mesh vectors of that length; "
-                          f"missing {missing[:6]} (library search box +-{(SEARCH_SUPERCELL * mpa).tolist()})",
-                          dict(wit2, brute_force_box=bound))
-            bad = True
-            break
-        wsh = np.array([wk[index[tuple(nvec[i].tolist())]] for i in same])
-        dw = float(np.max(np.abs(wsh - w0))) if len(wsh) else 0.0
-        ctx.dev("shell_weights_differ", dw / (1e-9 * wscale))
-        if dw > 1e-9 * wscale:
-            ctx.violation("shell_weights_differ", f"shell |b|={r:.9f} has weights {sorted(set(wsh.tolist()))}", wit2)
-            bad = True
-            break
-        if len(same) != len(members):
-            # a selected vector that the brute force did not find at that radius: harness inconsistency
-            raise RuntimeError(f"harness: brute force found {len(same)} vectors, selection has {len(members)}")
-    if nshell >= 2:
-        ctx.count("multi_shell_sets")
-    if np.any(np.abs(bg).max(axis=0) >= SEARCH_SUPERCELL * mpa):
-        ctx.count("b_beyond_2mp_index_box")
-
-    # ---- neighbours: k + b = k_nb + G, exact integers
     kirr = list(range(NK)) if kptirr is None else kptirr
-    G, nb = bk.G, bk.neighbours
-    if set(G.keys()) != set(kirr) or set(nb.keys()) != set(kirr):
-        ctx.ev()
-        ctx.violation("neighbours:keys!=kptirr", f"keys {sorted(G.keys())[:10]} vs kptirr {sorted(kirr)[:10]}", wit)
+    S = dict(basis=basis, mpa=mpa, mp=mp, kint=kint, kred=kred, NK=NK, kirr=kirr, b1_atol=b1_atol, bk_tol=bk_tol,
+             bk_tol_label=("default 1e-5" if bk_tol is None else f"{bk_tol:g}"), len_eq=len_eq, len_tie=len_tie,
+             ssc=ssc, wit=wit)
+    snap = snapshot(bk)
+    J = judge(ctx, bk, S)
+    if J is None:
         return
-    ctx.close("kpt_grid!=round(k*mp_grid)", np.array(bk.kpt_grid), kint, rtol=0, atol=0, what="kpt_grid", witness=wit)
-    nG = 0
-    for ik in kirr:
-        g = np.array(G[ik])
-        n = np.array(nb[ik])
-        ctx.ev()
-        ctx.count("neighbour_relations_checked", NNB)
-        if g.shape != (NNB, 3) or n.shape != (NNB,) or n.min() < 0 or n.max() >= NK or \
-                not (np.issubdtype(g.dtype, np.integer) and np.issubdtype(n.dtype, np.integer)):
-            ctx.violation("neighbours:malformed", f"ik={ik} G{g.shape}{g.dtype} nb{n.shape}{n.dtype} {n}", wit2)
-            bad = True
-            break
-        lhs = kint[ik][None, :] + bg
-        rhs = kint[n] + g * mpa[None, :]
-        if not np.array_equal(lhs, rhs):
-            ib = int(np.where(np.any(lhs != rhs, axis=1))[0][0])
-            ctx.violation("neighbours:k+b!=k_nb+G",
-                          f"ik={ik} k={kint[ik].tolist()}/{mp} b={bg[ib].tolist()} neighbour={int(n[ib])} "
-                          f"k_nb={kint[n[ib]].tolist()} G={g[ib].tolist()}", wit2)
-            bad = True
-            break
-        # the same relation in reduced float coordinates, as stated in the property
-        kr = kred[ik][None, :] + bg / mpa[None, :] - kred[n] - g
-        if np.abs(kr).max() > 1e-7:
-            ctx.violation("neighbours:k+b!=k_nb+G", f"ik={ik}: reduced coordinates differ by {np.abs(kr).max()}", wit2)
-            bad = True
-            break
-        nG += int(np.count_nonzero(np.any(g != 0, axis=1)))
-    if nG:
-        ctx.count("G_nonzero", nG)
+    bad, NNB, nshell, nG = J["bad"], J["NNB"], J["nshell"], J["nG"]
+    wscale = J["wscale"]
+    wit2 = dict(wit, bk_grid=J["bg"], wk=J["wk"])
+
     ctx.count(f"kind_{kind}")
     ctx.count(f"mode_{mode}")
     if setting == "resetting":
         ctx.count("setting_resetting")
+    if setting == "sheared":
+        ctx.count("setting_sheared")
+        if cond > 20:
+            ctx.count("setting_sheared_cond_gt_20")
+    if lefthanded:
+        ctx.count("lefthanded_lattices")
+    if cellscale != 1.0:
+        ctx.count("scaled_cells")
+    if big:
+        ctx.count("big_anisotropic_meshes")
+    if near != "exact":
+        ctx.count(f"near_symmetric_{near}_judged")
+    if kt is not None and kt != KMESH_TOL:
+        ctx.count("kmesh_tol_nondefault_judged")
+
+    hist = "none"
+    if not bad:
+        tmp = None
+        try:
+            # ---- search_supercell: the set found must be that of the default (shells are tried by increasing radius)
+            if ssc != SEARCH_SUPERCELL:
+                kw0 = {k: v for k, v in kw.items() if k != "search_supercell"}
+                try:
+                    bk0 = BKVectors.from_kpoints(recip_lattice=recip.copy(), mp_grid=mpa.copy(),
+                                                 kpoints_red=kred.copy(), kptirr=[kirr[0]], **kw0)
+                except RuntimeError as e:
+                    if "Could not find a complete set" not in str(e):
+                        raise
+                    bk0 = None
+                    ctx.count("search_supercell_default_finds_nothing")
+                if bk0 is not None:
+                    ctx.ev()
+                    ctx.count("search_supercell_compared_with_default")
+                    s0 = {tuple(b): w for b, w in zip(np.array(bk0.bk_grid).tolist(), np.array(bk0.wk, dtype=float))}
+                    s1 = {tuple(b): w for b, w in zip(J["bg"].tolist(), J["wk"])}
+                    if set(s0) != set(s1) or max(abs(s0[b] - s1[b]) for b in s0) > 1e-9 * wscale:
+                        ctx.violation("search_supercell:b_set_differs_from_default",
+                                      f"search_supercell={ssc}: {len(s1)} vectors, default: {len(s0)} vectors; "
+                                      f"only in one: {sorted(set(s0) ^ set(s1))[:6]}", wit2)
+                        bad = True
+
+            # ---- the public classmethod find_bk_vectors called directly: the triple it returns
+            if rng.random() < 0.15:
+                kwf = {k: v for k, v in kw.items()}
+                wk_f, bc_f, bg_f = BKVectors.find_bk_vectors(recip.copy(), tuple(mp) if rng.random() < 0.5 else
+                                                             mpa.copy(), **kwf)
+                ctx.count("find_bk_vectors_direct_calls")
+                ctx.ev()
+                if not (np.array_equal(np.array(bg_f), J["bg"]) and np.array_equal(np.array(wk_f, dtype=float), J["wk"])):
+                    ctx.violation("find_bk_vectors:triple!=from_kpoints_object",
+                                  "bk_grid / wk returned by find_bk_vectors differ from those of the object", wit2)
+                    bad = True
+                else:
+                    bgf = np.array(bg_f)
+                    ctx.close("find_bk_vectors:bk_cart!=bk_grid@(recip/mp_grid)", np.array(bc_f, dtype=float),
+                              bgf @ basis, rtol=1e-12, scale=float(np.abs(basis).max()) * max(1, np.abs(bgf).max()),
+                              what="bk_cart returned by find_bk_vectors", witness=wit2)
+
+            # ---- histories through the other public entry points
+            hist = str(rng.choice(["none", "npz", "npz2", "nnkp", "nnkp+reorder", "nnkp+npz"],
+                                  p=[0.25, 0.15, 0.10, 0.2, 0.15, 0.15]))
+            if hist.startswith("nnkp") and max(mp) > 100:
+                hist = "npz"          # the mesh detection of from_nnkp is documented for denominators <= 100
+            if hist.startswith("nnkp") and kptirr is None and NK > 64:
+                hist = "npz"          # cost: the neighbour search of the library is O(NK^2) in pure Python
+            if hist != "none":
+                os.makedirs(os.path.join(env.WORK, "c22"), exist_ok=True)
+                tmp = tempfile.mkdtemp(dir=os.path.join(env.WORK, "c22"))
+            cur, curS, curpre = bk, S, ""
+            if hist.startswith("nnkp"):
+                perm = rng.permutation(NNB) if rng.random() < 0.8 else np.arange(NNB)
+                bg_file = J["bg"][perm]
+                latvar = str(rng.choice(["digits16", "digits7+real_lattice", "digits7+recip_lattice",
+                                         "digits16+real_lattice"]))
+                k_digits = int(rng.choice([8, 10, 12])) if digits is None or digits <= 8 else 12
+                path = os.path.join(tmp, "x.nnkp")
+                write_nnkp(path, L, recip, kred, kint, mpa, bg_file, 16 if "digits16" in latvar else 7, k_digits)
+                kwn = {}
+                if "real_lattice" in latvar:
+                    kwn["real_lattice"] = L.copy()
+                if "recip_lattice" in latvar:
+                    kwn["recip_lattice"] = recip.copy()
+                if bk_tol is not None:
+                    kwn["bk_complete_tol"] = bk_tol
+                # kmesh_tol of from_nnkp defaults to 1e-5: left out only when no length is closer than 1e-4 to a
+                # selected radius without being equal to it
+                dd = np.abs(J["nlen"][:, None] - J["blen"][None, :])
+                ktn = kt_eff
+                if kt is None and rng.random() < 0.5 and not np.any((dd > LEN_EQ) & (dd < 10 * KMESH_TOL_NNKP)):
+                    ktn = KMESH_TOL_NNKP
+                    ctx.count("from_nnkp_default_kmesh_tol")
+                else:
+                    kwn["kmesh_tol"] = kt_eff
+                if kptirr is not None:
+                    kwn["kptirr"] = kptirr_in
+                ctx.count("from_nnkp_calls")
+                bkn = BKVectors.from_nnkp(path, **kwn)
+                le, lt = len_zone(ktn)
+                kred_file = np.round(kred, k_digits)
+                Sn = dict(S, kred=kred_file, len_eq=max(le, len_eq) if ktn == kt_eff else le,
+                          len_tie=lt, wit=dict(wit, history=hist, nnkp_lattice=latvar, nnkp_kmesh_tol=ktn,
+                                               nnkp_order=perm))
+                ctx.ev()
+                if not np.array_equal(np.array(bkn.bk_grid), bg_file):
+                    ctx.violation("from_nnkp:bk_grid_order!=nnkp_order",
+                                  f"bk_grid {np.array(bkn.bk_grid).tolist()[:6]}.. file {bg_file.tolist()[:6]}..",
+                                  Sn["wit"])
+                    bad = True
+                Jn = judge(ctx, bkn, Sn, pre="from_nnkp:")
+                if Jn is None or Jn["bad"]:
+                    bad = True
+                else:
+                    ctx.count("hist_nnkp_judged")
+                    if "real_lattice" in latvar or "recip_lattice" in latvar:
+                        ctx.count("hist_nnkp_lattice_override_judged")
+                    # weights of the same vectors as in the first object
+                    ctx.close("from_nnkp:wk!=from_kpoints", np.array(bkn.wk, dtype=float), J["wk"][perm], rtol=0,
+                              atol=1e-9 * wscale, what="weights", witness=Sn["wit"])
+                    cur, curS, curpre = bkn, Sn, "from_nnkp:"
+                if not bad and hist == "nnkp+reorder":
+                    # bring the nnkp-ordered object (and data stored per b vector) into the order of the first one
+                    data = {ik: np.stack([perm, np.full(NNB, ik)], axis=1).astype(float) for ik in kirr}
+                    fake = FakeMMN(data)
+                    ctx.count("reorder_mmn_calls")
+                    bk.reorder_mmn(bkn, fake)
+                    ctx.ev()
+                    left = same_as_snapshot(bkn, snap, float_atol=dict(
+                        wk=1e-9 * wscale, bk_cart=1e-12 * float(np.abs(snap["bk_cart"]).max()),
+                        recip_lattice=1e-12 * float(np.abs(recip).max())))
+                    if left is not None:
+                        ctx.violation("reorder_mmn:object_not_in_reference_order",
+                                      f"attribute {left} differs from the reference object after reorder_mmn", Sn["wit"])
+                        bad = True
+                    for ik in kirr:
+                        if not np.array_equal(fake.data[ik][:, 0], np.arange(NNB)) or \
+                                not np.all(fake.data[ik][:, 1] == ik):
+                            ctx.violation("reorder_mmn:data_rows_not_in_reference_order",
+                                          f"ik={ik}: rows carry b indices {fake.data[ik][:, 0].tolist()}", Sn["wit"])
+                            bad = True
+                            break
+                    Jr = judge(ctx, bkn, dict(Sn, wit=dict(Sn["wit"], after="reorder_mmn")), pre="reorder_mmn:")
+                    if Jr is None or Jr["bad"]:
+                        bad = True
+                    else:
+                        ctx.count("hist_reorder_mmn_judged")
+            if not bad and hist in ("npz", "npz2", "nnkp+npz"):
+                for rep in range(2 if hist == "npz2" else 1):
+                    path = os.path.join(tmp, f"x{rep}.npz")
+                    before = snapshot(cur)
+                    cur.to_npz(path)
+                    ctx.count("npz_round_trips")
+                    new = BKVectors.from_npz(path)
+                    ctx.ev(2)
+                    left = same_as_snapshot(new, before)
+                    if left is not None:
+                        ctx.violation("npz:attribute_changed", f"attribute {left} differs after to_npz -> from_npz",
+                                      curS["wit"])
+                        bad = True
+                        break
+                    eq = new.equals(cur)
+                    if not (isinstance(eq, tuple) and eq[0] is True):
+                        ctx.violation("npz:equals_false", f"reloaded.equals(original) = {eq}", curS["wit"])
+                        bad = True
+                        break
+                    Jz = judge(ctx, new, dict(curS, wit=dict(curS["wit"], history=hist)), pre=curpre + "npz:")
+                    if Jz is None or Jz["bad"]:
+                        bad = True
+                        break
+                    ctx.count("hist_npz_judged")
+                    cur = new
+            # ---- values returned earlier stay valid
+            ctx.ev()
+            ctx.count("first_object_unchanged_checked")
+            left = same_as_snapshot(bk, snap)
+            if left is not None:
+                ctx.violation("from_kpoints:object_changed_by_later_calls",
+                              f"attribute {left} of the first object changed (history {hist})", wit2)
+                bad = True
+        finally:
+            if tmp is not None:
+                shutil.rmtree(tmp, ignore_errors=True)
+
     if not bad and nG > 0:
-        ctx.nontrivial((kind, mode, setting, mp, rotated, NNB, nshell))
+        ctx.nontrivial((kind, mode, setting, mp, rotated, NNB, nshell, near, kt, ssc, lefthanded, hist, forms))
     ctx.sample(dict(kind=kind, mode=mode, setting=setting, mp_grid=mp, cond=round(cond, 2), NNB=NNB, nshell=nshell,
-                    real_lattice=L))
+                    real_lattice=L, near_symmetric=near, kmesh_tol=kt, search_supercell=ssc, history=hist))
 
 
 if __name__ == "__main__":
     harness.main(
         PROP, "exploration", case, setup_fn=setup,
-        tiers=dict(quick=dict(cases=800, shards=8, time=900), thorough=dict(cases=12000, shards=16, time=3000)),
+        tiers=dict(quick=dict(cases=1000, shards=8, time=900), thorough=dict(cases=16000, shards=16, time=3000)),
         rule="all 14 Bravais types (primitive cells of the centred ones and the simple = conventional ones) with random "
              "axis ratios, special ratios (accidental shell coincidences, hidden fcc/bcc/cubic symmetry, the "
              "rhombohedral/bct/face-centred lattices of finding F12) and mesh-compensated ratios, other primitive "
-             "settings by unimodular integer matrices (cond<=20), random SO(3) orientation, random triclinic "
-             "(cond<=20); meshes 1..8 isotropic / one / two / three non-trivial directions; shuffled k lists (exact or "
-             "8-digit rounded), optional kptirr subsets.  A case is non-trivial when a b-set was returned, every "
-             "sub-oracle ran and at least one neighbour relation has G != 0; distinct by (type, ratio mode, setting, "
-             "mesh, rotated, number of b vectors, number of shells)",
+             "settings by unimodular integer matrices (cond<=20) and strongly sheared ones (cond<=50), random O(3) "
+             "orientation, both handednesses, cells scaled by 0.25..20, nearly symmetric cells, random triclinic "
+             "(cond<=20); meshes 1..8 isotropic / one / two / three non-trivial directions and one direction up to 120; "
+             "shuffled k lists (exact or rounded to 8..12 digits), optional kptirr subsets; documented parameters "
+             "bk_complete_tol / kmesh_tol / search_supercell varied, argument forms varied; histories through npz, "
+             "from_nnkp, reorder_mmn.  A case is non-trivial when a b-set was returned, every sub-oracle ran on every "
+             "object of the history and at least one neighbour relation has G != 0; distinct by (type, ratio mode, "
+             "setting, mesh, rotated, number of b vectors, number of shells, parameter and history class)",
         assumptions=["b vectors are recomputed by the harness as bk_grid @ (recip_lattice/mp_grid)",
                      "whole-shell oracle = brute-force enumeration of the mesh lattice in a box containing the ball "
-                     "of radius max|b|; lengths equal within 1e-9, tie zone (1e-9,1e-5) skipped",
+                     "of radius max|b|; lengths equal within 1e-9, tie zone (1e-9,1e-5) skipped (scaled with kmesh_tol "
+                     "when that documented parameter is passed)",
                      "B1 tolerance 10*bk_complete_tol+1e-9 = 1.1e-8 absolute when bk_complete_tol=1e-9 is passed, 1e-5 (the documented "
-                     "default acceptance threshold) otherwise; neighbour relation in exact integers"],
-        required_counters=("from_kpoints_calls", "tight_bk_complete_tol_calls", "default_bk_complete_tol_calls", "shells_checked", "multi_shell_sets", "neighbour_relations_checked",
-                           "G_nonzero", "kptirr_subset", "setting_resetting") + tuple(f"kind_{k}" for k in KINDS),
+                     "default acceptance threshold) by default, t+1e-9 for a random t; neighbour relation in exact integers",
+                     "the .nnkp files are written by the harness from exact integer arithmetic (Wannier90 layout)",
+                     "'Could not find a complete set' is judged only for kmesh_tol <= 1e-7 and search_supercell >= 2"],
+        required_counters=("from_kpoints_calls", "tight_bk_complete_tol_calls", "default_bk_complete_tol_calls",
+                           "random_bk_complete_tol_calls", "shells_checked", "multi_shell_sets",
+                           "neighbour_relations_checked", "G_nonzero", "kptirr_subset", "setting_resetting",
+                           "setting_sheared", "setting_sheared_cond_gt_20", "lefthanded_lattices", "scaled_cells",
+                           "big_anisotropic_meshes", "near_symmetric_split_judged", "near_symmetric_merged_judged",
+                           "near_symmetric_tiny_judged", "kmesh_tol_nondefault_judged",
+                           "kmesh_tol_merged_shells_decided", "search_supercell_compared_with_default",
+                           "argform_varied_calls", "argform_mp_grid_not_array", "inputs_unchanged_checked",
+                           "find_bk_vectors_direct_calls", "hist_nnkp_judged", "hist_nnkp_lattice_override_judged",
+                           "from_nnkp_default_kmesh_tol", "hist_reorder_mmn_judged", "hist_npz_judged",
+                           "first_object_unchanged_checked") + tuple(f"kind_{k}" for k in KINDS),
         min_nontrivial=50,
     )
